@@ -43,10 +43,17 @@ class SchedLock:
 
     def acquire(self, blocking=True, timeout=-1):
         w = threading.current_thread()
+        waited = 0
         while not self._l.acquire(blocking=False):
             if not blocking:
                 return False
             if isinstance(w, Worker) and not getattr(w, 'abandoned', False):
+                if timeout is not None and timeout >= 0 and waited >= 1:
+                    # a waiter with a finite timeout: the holder may stay parked for longer than any timeout, so
+                    # the second time the scheduler picks a still-blocked waiter its timeout has run out — it
+                    # goes on WITHOUT the lock, as threading.Lock.acquire(timeout=...) would (returns False)
+                    return False
+                waited += 1
                 w.report_blocked()
             elif isinstance(w, Worker):
                 return self._l.acquire(True, 5)
@@ -69,10 +76,12 @@ class SchedLock:
 
 
 class Worker(threading.Thread):
-    def __init__(self, sch, wid: int, ncalls: int, close_after: bool, first_open_missing: bool = False):
+    def __init__(self, sch, wid: int, ncalls: int, close_after: bool, first_open_missing: bool = False,
+                 via_subclass: bool = False):
         super().__init__(daemon=True, name=f'c20-worker-{wid}')
         self.sch, self.wid, self.ncalls, self.close_after = sch, wid, ncalls, close_after
         self.first_open_missing = first_open_missing
+        self.via_subclass = via_subclass
         self.arrived, self.go = threading.Event(), threading.Event()
         self.pending = None
         self.finished = False
@@ -149,6 +158,11 @@ class Worker(threading.Thread):
             return self.helper_trace
         return None
 
+    def cls(self):
+        # the store class this worker uses: TrajectoryStore itself, or a trivial subclass of it (the single-thread
+        # rule is about trajectory stores, whatever class they are made through)
+        return self.sch.sub_cls() if self.via_subclass else self.sch.store_cls
+
     def run(self):
         self.my_ident = threading.get_ident()
         sys.settrace(self.global_trace)
@@ -159,12 +173,12 @@ class Worker(threading.Thread):
                         # another entry point, and a constructor that fails AFTER the guard (the file does not
                         # exist): whether the guard lets the thread through must not depend on either
                         try:
-                            self.sch.store_cls.open(base_file='/nonexistent/c20_missing.nc')
+                            self.cls().open(base_file='/nonexistent/c20_missing.nc')
                             self.results.append('error:open of a missing file succeeded')
                         except ValueError as e:
                             self.results.append('ok' if 'does not exist' in str(e) else f'error:ValueError:{e}')
                         continue
-                    ts = self.sch.store_cls.create()
+                    ts = self.cls().create()
                     self.results.append('ok')
                     if self.close_after:
                         ts.close()
@@ -203,6 +217,15 @@ class Scheduler:
     def reset_lazy(self):
         for k in self.lazy_names:
             setattr(self.store_cls, k, None)
+        sub = getattr(self, '_sub', None)
+        if sub is not None:                       # nothing the code may have recorded on the subclass survives a run
+            for k in [k for k in vars(sub) if not k.startswith('__')]:
+                delattr(sub, k)
+
+    def sub_cls(self):
+        if getattr(self, '_sub', None) is None:
+            self._sub = type('C20SubStore', (self.store_cls,), {})
+        return self._sub
 
     def entry(self, lineno):
         if self.guard is not None:
@@ -213,6 +236,8 @@ class Scheduler:
 
     def owner_wid(self, workers):
         o = self.store_cls.active_in_thread
+        if o is None and getattr(self, '_sub', None) is not None:
+            o = getattr(self._sub, 'active_in_thread', None)
         if o is None:
             return None
         for w in workers:
@@ -229,9 +254,9 @@ class Scheduler:
         w.go.set()
         if not w.arrived.wait(timeout=STEP_TIMEOUT):
             raise SchedulerStuck(f'worker {w.wid} did not come back from step {label}')
-        return 'Blocked' if w.blocked else label
+        return 'Blocked' if w.blocked else (label or 'Start')
 
-    def run_interleaved(self, calls, close, sched, open_missing=None):
+    def run_interleaved(self, calls, close, sched, open_missing=None, via_subclass=None):
         """calls[i] constructor calls in worker i (all workers alive for the whole run), scheduled by `sched`
         (list of worker indices), then drained round robin.  Returns dict(labels, results, owner, owners_seen)."""
         saved = {k: getattr(self.store_cls, k) for k in self.lock_names}
@@ -255,7 +280,8 @@ class Scheduler:
                 return SchedLock()
             return orig_rlock(*a, **k)
         threading.Lock, threading.RLock = lock_factory, rlock_factory
-        workers = [Worker(self, i, n, close[i], bool(open_missing and open_missing[i])) for i, n in enumerate(calls)]
+        workers = [Worker(self, i, n, close[i], bool(open_missing and open_missing[i]),
+                          bool(via_subclass and via_subclass[i])) for i, n in enumerate(calls)]
         labels, owners = [], []
         try:
             for w in workers:
@@ -504,6 +530,17 @@ def gen_cases(chk: Check, guard):
         for w in words(2, 12):
             cases.append({'kind': 'interleave', 'calls': [2, 1], 'close': [True, True], 'sched': w,
                           'exhaustive': True})
+    # stores made through a (trivial) subclass of TrajectoryStore, by one thread, the other, or both: the first store
+    # of the process through the subclass then a plain one from another thread, and the reverse; also interleaved
+    for via in ([True, False], [False, True], [True, True]):
+        for order in ([0, 1], [1, 0]):
+            cases.append({'kind': 'interleave', 'calls': [1, 1], 'close': [True, False], 'via_subclass': via,
+                          'sched': [t for t in order for _ in range(per_call + 1)]})
+            cases.append({'kind': 'interleave', 'calls': [2, 1], 'close': [False, True], 'via_subclass': via,
+                          'sched': [t for t in order for _ in range(2 * (per_call + 1))]})
+        for _ in range(chk.n(12, 200)):
+            cases.append({'kind': 'interleave', 'calls': [1, 1], 'close': [True, True], 'via_subclass': via,
+                          'sched': [rng.randrange(2) for _ in range(2 * per_call)]})
     # S: one thread after the other, each exiting before the next starts
     for calls in ([1, 1], [2, 1], [1, 1, 1], [1, 2, 1]):
         for close in (True, False):
@@ -537,7 +574,7 @@ def check_cases(chk: Check, cases, guard):
             continue
         try:
             if c['kind'] == 'interleave':
-                outs.append(sch.run_interleaved(c['calls'], c['close'], c['sched'], c.get('open_missing')))
+                outs.append(sch.run_interleaved(c['calls'], c['close'], c['sched'], c.get('open_missing'), c.get('via_subclass')))
             elif c['kind'] == 'main_first':
                 outs.append(sch.run_main_first(c['calls'], c['close']))
             else:
@@ -555,7 +592,7 @@ def check_cases(chk: Check, cases, guard):
         if out is None:
             continue
         distinct_threads_step = len({t for t in c['sched'][:4]}) > 1
-        chk.case({k: c.get(k) for k in ('kind', 'calls', 'close', 'sched', 'open_missing')},
+        chk.case({k: c.get(k) for k in ('kind', 'calls', 'close', 'sched', 'open_missing', 'via_subclass')},
                  nontrivial=(c['kind'] == 'interleave' and distinct_threads_step) or c['kind'] != 'interleave')
         chk.count('kind:' + c['kind'] + (':exhaustive' if c.get('exhaustive') else ''))
         chk.count(f'threads:{len(c["calls"])}')
